@@ -262,3 +262,61 @@ class Holder:
                  u: Union[Sub, int, None] = None) -> None:
         T(self, locals())
         self.s, self.ss, self.u = s, ss, u
+
+
+# ------------------------------------------------ C13: model variants
+class Unrel1:
+    def __init__(self, qq: int) -> None:
+        T(self, locals())
+        self.qq = qq
+
+
+class Unrel2:
+    def __init__(self, ww: str, opt: int = 0) -> None:
+        T(self, locals())
+        self.ww, self.opt = ww, opt
+
+
+class UnrelEnum(enum.Enum):
+    one = 1
+    two = 2
+
+
+def make_coll(variant: int):
+    """The Coll model with List/Dict (0), Sequence/Mapping (1) or
+    MutableSequence/MutableMapping (2) in every annotation."""
+    S_ = [List, Sequence, MutableSequence][variant]
+    M_ = [Dict, Mapping, MutableMapping][variant]
+
+    class Sub:
+        def __init__(self, x: int) -> None:
+            self.x = x
+
+    class Coll:
+        def __init__(self, a: S_[int], b: M_[str, float],        # type: ignore
+                     c: Optional[S_[Sub]] = None,                # type: ignore
+                     d: Optional[M_[str, S_[bool]]] = None,      # type: ignore
+                     e: Optional[S_[str]] = None,                # type: ignore
+                     f: Optional[M_[str, Sub]] = None) -> None:  # type: ignore
+            self.a, self.b, self.c, self.d, self.e, self.f = a, b, c, d, e, f
+    return Coll, Sub
+
+
+def make_uni(fix: bool):
+    """The Uni model with / without bool_union_fix in the Unions that
+    contain bool."""
+    class Sub:
+        def __init__(self, x: int) -> None:
+            self.x = x
+    if fix:
+        CT = Union[int, bool, yatiml.bool_union_fix]
+        DT = Union[bool, Sub, List[int], None, yatiml.bool_union_fix]
+    else:
+        CT = Union[int, bool]
+        DT = Union[bool, Sub, List[int], None]
+
+    class Uni:
+        def __init__(self, a: Union[int, str], b: Optional[float] = None,
+                     c: CT = 0, d: DT = None) -> None:           # type: ignore
+            self.a, self.b, self.c, self.d = a, b, c, d
+    return Uni, Sub
